@@ -68,12 +68,20 @@ def confinement(rng):
     function that declines a sub-folder."""
     side = rng.choice([0, 1])
     base_fl = rng.choice([f for f in CLEAN_FLAVOURS if not f.oip[side]])
-    fl = E.Flavour(base_fl.oip, base_fl.cs, False, rng.choice(["path", "oid"]), base_fl.roots)
+    cs = base_fl.cs
+    mixed = rng.random() < 0.3
+    if mixed:
+        # providers of different case sensitivity; users act on the case-SENSITIVE side, where a folder whose name
+        # differs from the root only by case ('/Remote' next to '/remote') is a different folder outside the root
+        cs = (side == 0, side == 1)
+    fl = E.Flavour(base_fl.oip, cs, False, rng.choice(["path", "oid"]), base_fl.roots)
     g = EC.Gen(rng, fl, [side], 0)
     g.allow_empty = False
     root = fl.roots[side]
     sib = root + "2"                       # '/local2' : shares only a name prefix with the root
     outs = ["/other", sib, root + "x"]
+    if mixed:
+        outs.append("/" + root.strip("/").capitalize())
     decline = rng.random() < 0.3
     base, base_other = [], []
     g.make_base(rng.randint(1, 4))         # inside objects, created on side 0 and synchronised
